@@ -87,6 +87,10 @@ func genC18(r *h.Rng, tier string, idx int) *h.Plan {
 		case 0:
 			f := map[string]interface{}{"k": str(), "n": float64(r.Range(0, 3))}
 			if r.P(1, 3) {
+				// numbers at the edges of what an encoding may carry as an integer
+				f["num"] = r.PickAny([]interface{}{1e19, -1e30, 12345678901234567890.0, 9223372036854775808.0, 1.5, 1000.0, 0.1, -0.0, 4294967296.0, 1e-7})
+			}
+			if r.P(1, 3) {
 				f["nest"] = map[string]interface{}{"in": str(), "list": []interface{}{str(), "b"}}
 			}
 			if r.P(1, 4) {
